@@ -197,7 +197,7 @@ def gen_sync_read(rng):
     fs, stat, ops = {}, {}, [connect_op(rng)]
     for i in range(rng.randrange(1, 4)):
         kind = rng.choice(["list", "stat", "pull", "pull"])
-        path = ("/p%d" % i).encode()
+        path = (rng.choice(["/p%d", "/p%d", "/\u00e9%d", "/\u6587\u4ef6/%d"]) % i).encode("utf8")
         if kind == "list":
             ents = [(rand_name(rng), rand_u32(rng), rand_u32(rng), rand_u32(rng)) for _ in range(rng.choice([0, 1, 2, 2, 5, 40]))]
             fs[path] = ("dir", ents)
@@ -251,13 +251,15 @@ def gen_push(rng, big=False):
         sizes += [3 * 65536 + 5, 300000]
     files, dirs, ops = {}, {}, [connect_op(rng)]
     fid = 0
+    # sizes that make the buffered records end within a few bytes of maxdata (off-by-some in the flush decision)
+    sizes += [rng.randrange(max(0, maxdata - 160), maxdata + 40) for _ in range(6)] + [rng.randrange(max(0, chunk * 2 - 120), chunk * 2 + 40) for _ in range(4)]
     for i in range(rng.randrange(1, 3)):
         size = min(rng.choice(sizes), 300000 if big else 140000)
         base = rand_bytes(rng, min(size, 2000))
         content = (base * (size // max(1, len(base)) + 1))[:size] if size else b""
         files[fid] = content
         kind = rng.choice(["bytesio", "file", "file", "dir"])
-        path = ("/sdcard/%s%d" % ("x" * rng.choice([1, 1, 60, 1000]), i)).encode()
+        path = ("/sdcard/%s%d" % (rng.choice(["x", "x", "x" * 60, "x" * 1000, "\u00e9\u6587\u4ef6", "d\u00efr/\U0001f600"]), i)).encode("utf8")
         op = dict(op="push", path=path, mode=rng.choice([33272, 0, 1, 0o100644, 2 ** 31, 2 ** 32 - 1]), mtime=rng.choice([0, 0, 1, 2 ** 31, 2 ** 32 - 1]),
                   cb=rng.choice(["none", "count", "raise"]))
         if kind == "dir":
@@ -277,6 +279,20 @@ def gen_push(rng, big=False):
     return dict(envs=[base_env(rng, sim)], ops=ops, files=files, dirs=dirs)
 
 
+def gen_reconnect_push(rng):
+    """connect (large maxdata), transfer, connect AGAIN without close (small maxdata), transfer: per-connection values must not be cached."""
+    md = [rng.choice([1 << 20, 262144, 65536]), rng.choice([4096, 8192])]
+    if rng.random() < 0.3:
+        md.reverse()
+    files = {0: rand_bytes(rng, 2000) * rng.choice([1, 5, 10]), 1: rand_bytes(rng, 9000)}
+    envs = [dict(sim=dict(maxdata=md[0], default_chunks=[]), dt=1), dict(sim=dict(maxdata=md[1], default_chunks=[]), dt=1)]
+    ops = [dict(op="connect"), dict(op="push", src=("bytesio", 0), path=b"/sdcard/a", mtime=7), dict(op="connect"),
+           dict(op="push", src=(rng.choice(["bytesio", "file"]), 1), path=b"/sdcard/b", mtime=7)]
+    if rng.random() < 0.5:
+        ops.insert(2, dict(op="close"))
+    return dict(envs=envs, ops=ops, files=files)
+
+
 def gen_handshake(rng):
     """connect() against every authentication behaviour; repeated connects on the same object."""
     envs, ops = [], []
@@ -291,6 +307,8 @@ def gen_handshake(rng):
             auth = dict(accept=None, pubkey_ok=True)
         elif mode == "never":
             auth = dict(accept=None, pubkey_ok=False)
+            if rng.random() < 0.5:
+                auth["pubkey_reply"] = rng.choice(["auth", "auth_then_cnxn"])
         elif mode == "nontoken":
             auth = dict(accept=None, pubkey_ok=True, nontoken_at=rng.randrange(0, nkeys + 1))
         elif mode == "stall":
